@@ -1539,6 +1539,32 @@ def cache_policy(repo, tier):
     import ast
     from pyvc.flow import ground_obligation
     uses = []
+    owner_q = roles_of(repo)["_get_round_keys"][0]
+    # private helpers of the owner: module-level functions without a role of their own that are referenced ONLY from the owner (or
+    # from such helpers) anywhere in the package -- they are executed in place when the owner is verified (no contract: inlined), so
+    # their stores carry the owner's cache-invariant obligation
+    amod = loader.module(AES, repo)
+    role_fns = {q for (q, _g) in roles_of(repo).values()}
+    owners = {owner_q}
+    elsewhere = "".join(loader.module(rel, repo).source for rel in loader.all_package_files(repo) if rel != AES)
+    for _round in range(4):
+        grew = False
+        for q, fn in amod.functions.items():
+            if q in owners or "." in q or q in role_fns or q in elsewhere:
+                continue
+            ref_in = set()
+            for q2, fn2 in amod.functions.items():
+                if "." in q2:
+                    continue
+                if any(isinstance(n, ast.Name) and n.id == q for n in ast.walk(fn2)) and q2 != q:
+                    ref_in.add(q2)
+            top = any(isinstance(n, ast.Name) and n.id == q for st_ in amod.tree.body if not isinstance(st_, (ast.FunctionDef, ast.AsyncFunctionDef))
+                      for n in ast.walk(st_))
+            if ref_in and ref_in <= owners and not top:
+                owners.add(q)
+                grew = True
+        if not grew:
+            break
     for rel in loader.all_package_files(repo):
         mod = loader.module(rel, repo)
         if "_ROUND_KEY_CACHE" not in mod.source:
@@ -1553,7 +1579,7 @@ def cache_policy(repo, tier):
                 q = owner.get(id(n), "<module>")
                 if rel == AES and q == "<module>" and isinstance(n, ast.Name) and isinstance(n.ctx, ast.Store):
                     continue        # the module-level definition
-                if rel == AES and q == roles_of(repo)["_get_round_keys"][0]:
+                if rel == AES and q in owners:
                     continue
                 uses.append(f"{rel.split('/')[-1]}:{n.lineno} in {q}")
     ob = ground_obligation("C20/_pypdf_aes_fallback.py::_ROUND_KEY_CACHE/policy#only-_get_round_keys-touches-the-cache", not uses,
